@@ -317,7 +317,7 @@ func TestC15_ProtectedHistory(t *testing.T) {
 	if firstErr != nil {
 		t.Fatalf("HARNESS: %v", firstErr)
 	}
-	ev.Rapid("prothistory", ev.Pick(20, 50))
+	ev.Rapid("prothistory", ev.Pick(20, 30))
 	rapid.Check(t, func(rt *rapid.T) {
 		plan := drawHistPlan(rt)
 		key, what, err := runHistory(c, &plan)
